@@ -725,6 +725,23 @@ def r_pipe_own_params(cx):
               "pipeline::new: %s: ParsedParameters::new tokenizes it at white space, so the modifiers of a step "
               "(e.g. `addone | addone omit_fwd`) become modifiers of the pipeline itself and an enclosing pipeline "
               "skips the whole nested pipeline" % why, where)
+        # ... and it still carries the one-way modifiers of the invocation: it is not made from the copy whose globals
+        # had omit_fwd / omit_inv removed for the benefit of the steps (the pipeline as a whole would lose its own flag,
+        # and an enclosing pipeline would run it in the direction it must be skipped)
+        stripped = []
+
+        def vs(y):
+            if y[0] == "mod" and isinstance(y[2], tuple) and len(y[2]) > 1 and isinstance(y[2][1], str) and \
+                    y[2][1].rsplit("::", 1)[-1] in ("remove", "retain", "clear") and "BTreeMap" in y[2][1]:
+                stripped.append(y)
+            return True
+        mir.walk(v, vs)
+        cx.ob("R-PIPE-OWN-PARAMS", "pipeline/own-modifiers", not stripped,
+              "the pipeline's own parameters are parsed from values that still hold the invocation's omit_fwd / omit_inv"
+              if not stripped else
+              "pipeline::new parses the pipeline's own parameters from the copy of the caller's values from which omit_fwd / "
+              "omit_inv were removed (for the steps): a macro step `m:p omit_fwd` whose body is a pipeline loses its one-way "
+              "flag and runs in both directions", where)
     cx.count("R-PIPE-OWN-PARAMS", "parse_calls", n)
 
 
